@@ -1050,15 +1050,15 @@ def _minimize(case):
 
 SUBS = [
     Sub("reinforce", exec_reinforce, strategy=lambda tier: reinforce_cases(tier),
-        budget={"quick": 192, "thorough": 4000}, shards=16, shrink=False, minimize=_minimize, weight=3.0),
+        budget={"quick": 320, "thorough": 4000}, shards=16, shrink=False, minimize=_minimize, weight=3.0),
     Sub("pomo", exec_pomo, strategy=lambda tier: pomo_cases(tier),
-        budget={"quick": 64, "thorough": 1200}, shards=8, shrink=False, minimize=_minimize),
+        budget={"quick": 96, "thorough": 1200}, shards=8, shrink=False, minimize=_minimize),
     Sub("symnco", exec_symnco, strategy=lambda tier: symnco_cases(tier),
-        budget={"quick": 64, "thorough": 1200}, shards=8, shrink=False, minimize=_minimize),
+        budget={"quick": 96, "thorough": 1200}, shards=8, shrink=False, minimize=_minimize),
     Sub("a2c", exec_a2c, strategy=lambda tier: a2c_cases(tier),
-        budget={"quick": 32, "thorough": 600}, shards=4, shrink=False, minimize=_minimize),
+        budget={"quick": 48, "thorough": 600}, shards=4, shrink=False, minimize=_minimize),
     Sub("ppo", exec_ppo, strategy=lambda tier: ppo_cases(tier),
-        budget={"quick": 64, "thorough": 1200}, shards=8, shrink=False, minimize=_minimize, weight=2.0),
+        budget={"quick": 96, "thorough": 1200}, shards=8, shrink=False, minimize=_minimize, weight=2.0),
     Sub("rollout_eval", exec_rollout_eval, strategy=lambda tier: rollout_eval_cases(tier),
         budget={"quick": 16, "thorough": 200}, shards=2, shrink=False, minimize=_minimize),
 ]
